@@ -127,7 +127,9 @@ func c03R2(c *Ctx) {
 			call, ok := x.(*ssa.Call)
 			if ok && call.Common().StaticCallee() == res {
 				a := callArgs(call.Common())
-				if derivesFrom(a[0], func(y ssa.Value) bool { return loadedField(y) == dataF && item != nil && sameItem(baseOfFieldLoad(y), item) }) {
+				if derivesFrom(a[0], func(y ssa.Value) bool {
+					return loadedField(y) == dataF && item != nil && sameItem(baseOfFieldLoad(y), item)
+				}) {
 					dataOK = true
 				}
 				return true
